@@ -22,7 +22,9 @@ INFO = {
 IM = re.compile(r"\b(Cell|RefCell|Mutex|RwLock|Atomic\w*|OnceCell|OnceLock|LazyLock|LazyCell|UnsafeCell|SizedCache|"
                 r"UnboundCache|TimedCache|TimedSizedCache|Condvar|mpsc|thread_local)\b|\*mut ")
 STATELESS = ["pre_sets::PreSetProcessor", "splitter::SplitterProcess", "filter::ActiveFilter",
-             "selection::SelectionProcess"]
+             "selection::SelectionProcess",
+             # the sinks are part of every pipeline: they may write to the output, not remember rows
+             "output_style::JsonProcess", "output_style::TextProcess"]
 
 
 def run(ctx, rep):
@@ -70,38 +72,12 @@ def run(ctx, rep):
             continue
         b = st.bodies["process"]
         nf = "f%d" % st.next_field if st.next_field is not None else None
-        bad = None
-        for bb, idx, place, rv, stmt in b.assignments():
-            if place["l"] == 1 and place["p"] and place["p"][0] == "deref":
-                fld = [p for p in place["p"][1:] if p.startswith("f")]
-                if not fld or fld[0] != nf:
-                    bad = ("assignment to self.%s" % _fname(st, fld[0] if fld else "?"), b.where(bb))
-            if rv["k"] == "ref" and rv["mutbl"] and rv["place"]["l"] == 1 and rv["place"]["p"][:1] == ["deref"]:
-                fld = [p for p in rv["place"]["p"][1:] if p.startswith("f")]
-                if fld and fld[0] != nf:
-                    bad = ("&mut borrow of self.%s" % _fname(st, fld[0]), b.where(bb))
-                if not fld:
-                    bad = ("&mut reborrow of the whole stage (self passed on mutably)", b.where(bb))
+        bad = _writes_through_self(lib, st, b, nf, 0)
         if bad:
             r.bad(st.short + "::process", "%s: the stage keeps state between records" % bad[0], bad[1])
         else:
             r.ok(st.short + "::process", "writes nothing through self except calling self.next", b.where())
-    # ------------------------------------------------------------ GET-PURE
-    r = rep.rule("C11-GET-PURE", "no implementor of Get has a field of interior-mutable type", floor=100,
-                 analysis="A7 census over the Self types of all Get impls")
-    for imp in lib.impls_of(common.GET_TRAIT):
-        adt = lib.adts.get(imp["self"])
-        key = imp["self"]
-        if adt is None:
-            r.ok(key, "not a local ADT", "", nontrivial=False)
-            continue
-        bad = [f for v in adt["variants"] for f in v["fields"] if IM.search(f["ty"])]
-        if bad:
-            r.bad(key, "Get impl with interior-mutable field %s: %s" % (bad[0]["name"], bad[0]["ty"][:80]),
-                  "%s:%d" % (adt["loc"]["file"], adt["loc"]["line"]))
-        else:
-            r.ok(key, "%d field(s), none interior-mutable" % sum(len(v["fields"]) for v in adt["variants"]), "",
-                 nontrivial=False)
+    get_pure(rep, lib)
     # ------------------------------------------------------------ FRESH-CONTEXT
     r = rep.rule("C11-FRESH-CONTEXT", "every record is processed in a Context built by Context::new_with_input in "
                  "the same loop iteration from that iteration's parsed value", floor=1, analysis="A2 + A4 in read_input")
@@ -145,6 +121,54 @@ def run(ctx, rep):
         else:
             r.bad(fn, "function reaches %s: its value depends on more than its input" % hits[0][0], hits[0][1].where())
     c13_shared.cache_key(rep, lib)
+
+
+def get_pure(rep, lib):
+    """Shared with C12 / C13: a getter whose struct can keep state makes an expression's value depend on history."""
+    r = rep.rule("C11-GET-PURE", "no implementor of Get has a field of interior-mutable type", floor=100,
+                 analysis="A7 census over the Self types of all Get impls")
+    for imp in lib.impls_of(common.GET_TRAIT):
+        adt = lib.adts.get(imp["self"])
+        key = imp["self"]
+        if adt is None:
+            r.ok(key, "not a local ADT", "", nontrivial=False)
+            continue
+        bad = [f for v in adt["variants"] for f in v["fields"] if IM.search(f["ty"])]
+        if bad:
+            r.bad(key, "Get impl with interior-mutable field %s: %s" % (bad[0]["name"], bad[0]["ty"][:80]),
+                  "%s:%d" % (adt["loc"]["file"], adt["loc"]["line"]))
+        else:
+            r.ok(key, "%d field(s), none interior-mutable" % sum(len(v["fields"]) for v in adt["variants"]), "",
+                 nontrivial=False)
+    return r
+
+
+def _writes_through_self(lib, st, b, nf, depth):
+    """(description, where) of a write through self in body b (self = local 1), following local callees that are
+    handed the whole `&mut self`; None if there is none."""
+    whole = set()
+    for bb, idx, place, rv, stmt in b.assignments():
+        if place["l"] == 1 and place["p"] and place["p"][0] == "deref":
+            fld = [p for p in place["p"][1:] if p.startswith("f")]
+            if not fld or fld[0] != nf:
+                return ("assignment to self.%s" % _fname(st, fld[0] if fld else "?"), b.where(bb))
+        if rv["k"] == "ref" and rv["mutbl"] and rv["place"]["l"] == 1 and rv["place"]["p"][:1] == ["deref"]:
+            fld = [p for p in rv["place"]["p"][1:] if p.startswith("f")]
+            if fld and fld[0] != nf:
+                return ("&mut borrow of self.%s" % _fname(st, fld[0]), b.where(bb))
+            if not fld:
+                whole.add(place["l"])
+    if whole:
+        for c in b.calls:
+            if not any(a.get("k") in ("copy", "move") and a["place"]["l"] in whole for a in c.args):
+                continue
+            cb = lib.bodies.get(c.name or "")
+            if cb is None or depth > 3 or not c.args or c.args[0].get("place", {}).get("l") not in whole:
+                return ("&mut reborrow of the whole stage handed to %s" % (c.name or "an unknown callee"), c.where())
+            sub = _writes_through_self(lib, st, cb, nf, depth + 1)
+            if sub:
+                return sub
+    return None
 
 
 def _fname(st, f):
